@@ -344,6 +344,8 @@ func (sr *StatusReport) UnmarshalCbor(r io.Reader) error {
 
 	if n, err := cboring.ReadUInt(r); err != nil {
 		return err
+	} else if StatusReportReason(n) > BlockUnsupported {
+		return fmt.Errorf("unknown status report reason code %d", n)
 	} else {
 		sr.ReportReason = StatusReportReason(n)
 	}
